@@ -490,4 +490,142 @@ theorem doubNorm_eclDoub (s : Sci) (h : SciOk 13 s) (extra : List Char) (hp : Pl
       simp only [List.cons_append] at this
       rw [this]
 
+
+theorem takeWhile_append_all (p : Char → Bool) (a b : List Char) (h : ∀ x ∈ a, p x = true) :
+    (a ++ b).takeWhile p = a ++ b.takeWhile p := by
+  induction a with
+  | nil => rfl
+  | cons c a ih =>
+    simp only [List.cons_append, List.takeWhile_cons, h c (by simp), if_true]
+    rw [ih (fun x hx => h x (by simp [hx]))]
+
+theorem cstr_plain (extra : List Char) (hp : PlainExtra extra) :
+    cstr extra = [] ∨ cstr extra = ['\n'] := by
+  rcases hp with rfl | rfl | rfl
+  · left; rfl
+  · right; decide
+  · right; decide
+
+theorem dropWhile_zero_of_lead (ds : List Char) (h : ds.head? ≠ some '0') :
+    ds.dropWhile (· = '0') = ds := by
+  cases ds with
+  | nil => rfl
+  | cons d r =>
+    have : d ≠ '0' := by simpa using h
+    simp [List.dropWhile_cons, this]
+
+/-- **what the reader's `strtod` is given denotes the number `snprintf` printed**: for the
+ECL DOUB string of sign, 14 digits `d0 d1 … d13` and exponent `e` (`d0.d1…d13 E e`), read
+back through the DOUB lambda with whatever the tokenizer leaves behind the field, the decimal
+number recognised is `± d0d1…d13 · 10^(e-13)` — also for three-digit exponents, where the
+writer drops the `D` and the reader has to find the sign. -/
+theorem doub_token_value (s : Sci) (h : SciOk 13 s) (extra : List Char) (hp : PlainExtra extra) :
+    parseDec (cstr (doubNorm (eclDoub s ++ extra))) =
+      .num s.neg (decVal s.digits) (s.exp - 13) 14 := by
+  have hx : (s.exp + 1).natAbs < 10 ^ 12 := by have := h.exp3; omega
+  obtain ⟨hv, hed, hedn, _⟩ := expDigits_spec (s.exp + 1) hx
+  have hedl : (expDigits (s.exp + 1)).length ≤ 6 := by
+    rw [expDigits_length (s.exp + 1) (by have := h.exp3; omega)]; split <;> omega
+  rw [doubNorm_eclDoub s h extra hp]
+  -- the C string ends at the first NUL
+  have hpre : ∀ x ∈ (if s.neg then ['-'] else []) ++ '0' :: '.' :: (s.digits ++ 'E' :: signChar (s.exp + 1) ::
+      expDigits (s.exp + 1)), (fun c => decide (c ≠ Char.ofNat 0)) x = true := by
+    intro x hxm
+    simp only [List.mem_append, List.mem_cons, List.mem_nil_iff, or_false] at hxm
+    have : x ≠ Char.ofNat 0 := by
+      rcases hxm with hxm | rfl | rfl | hxm | rfl | rfl | hxm
+      · split at hxm <;> simp at hxm; subst hxm; decide
+      · decide
+      · decide
+      · exact (digit_misc x (h.dig x hxm)).2.2.2.2
+      · decide
+      · rcases signChar_pm (s.exp + 1) with h' | h' <;> rw [h'] <;> decide
+      · exact (digit_misc x (hed x hxm)).2.2.2.2
+    simpa using this
+  have hform : normTok s extra = ((if s.neg then ['-'] else []) ++ '0' :: '.' :: (s.digits ++ 'E' ::
+      signChar (s.exp + 1) :: expDigits (s.exp + 1))) ++ extra := by
+    unfold normTok; simp
+  have hc : cstr (normTok s extra) = (if s.neg then ['-'] else []) ++ '0' :: '.' :: (s.digits ++ 'E' ::
+      signChar (s.exp + 1) :: (expDigits (s.exp + 1) ++ cstr extra)) := by
+    rw [hform]; unfold cstr
+    rw [takeWhile_append_all _ _ _ hpre]; simp
+  rw [hc]
+  have he' : NonDigitHead (cstr extra) := by
+    rcases cstr_plain extra hp with h' | h' <;> rw [h'] <;> intro c hc' <;> simp at hc'
+    subst hc'; decide
+  rw [parseDec_canon s.neg s.digits (expDigits (s.exp + 1)) (cstr extra) (signChar (s.exp + 1))
+    (signChar_pm _) h.dig hed hedn hedl he']
+  rw [hv, h.len, dropWhile_zero_of_lead s.digits h.lead, h.len]
+  congr 1
+  unfold signChar
+  split
+  · rename_i hneg; simp; omega
+  · rename_i hpos
+    have : ¬ (('+' : Char) = '-') := by decide
+    simp only [this, if_false]; omega
+
+
+/-! ### a whole DOUB array -/
+
+/-- the decimal number the reader's `strtod` recognises in a token. -/
+def tokenNumber (normTok : List Char) : Dec := parseDec (cstr normTok)
+
+def sciNumber (s : Sci) : Dec := .num s.neg (decVal s.digits) (s.exp - 13) 14
+
+theorem map_of_all2 {α β γ : Type} (R : α → β → Prop) (f : β → γ) (g : α → γ) :
+    ∀ (xs : List α) (ys : List β), All2 R xs ys → (∀ x ∈ xs, ∀ y, R x y → f y = g x) →
+      ys.map f = xs.map g := by
+  intro xs
+  induction xs with
+  | nil => intro ys h _; cases h; rfl
+  | cons x xs ih =>
+    intro ys h hf
+    cases h with
+    | cons hr hrest =>
+      simp only [List.map_cons]
+      rw [hf x (by simp) _ hr, ih _ hrest (fun y hy => hf y (by simp [hy]))]
+
+/-- **Formatted DOUB array, value level**: every element of a DOUB array written in the ECL
+flavour is handed to `strtod` as exactly the decimal number `snprintf` printed for it
+(14 significant digits), for every array length, whatever line or block the element is on,
+including the last element in front of the next header or the end of the file. -/
+theorem doub_array_numbers (scis : List Sci) (h : ∀ s ∈ scis, SciOk 13 s) (tail : List Char)
+    (ht : PlainExtra ('\n' :: tokOf tail)) :
+    ∃ toks, parseData .doub scis.length
+        (numericBody .doub (scis.map fun s => doubField (eclDoub s)) ++ tail) = some (.toks toks) ∧
+      toks.map tokenNumber = scis.map sciNumber := by
+  have hg : ∀ f ∈ scis.map (fun s => doubField (eclDoub s)), GoodField f := by
+    intro f hf; obtain ⟨x, hx, rfl⟩ := List.mem_map.mp hf; exact (doubField_good x (h x hx)).1
+  obtain ⟨toks, hr, hrel⟩ := readToks_fmtLoop_plain (fmtParams .doub).2.1 (fmtParams .doub).1
+    (scis.map fun s => doubField (eclDoub s)) 0 tail hg
+  rw [List.length_map] at hr
+  refine ⟨toks.map doubNorm, ?_, ?_⟩
+  · simp only [parseData, numericBody]; rw [hr]; rfl
+  · rw [List.map_map]
+    have hrel' : All2 (fun (s : Sci) tok => TokRelP tail (doubField (eclDoub s)) tok) scis toks := by
+      clear hr hg
+      induction scis generalizing toks with
+      | nil => cases hrel; exact All2.nil
+      | cons x xs ih =>
+        cases hrel with
+        | cons h1 h2 => exact All2.cons h1 (ih (fun y hy => h y (by simp [hy])) _ h2)
+    refine map_of_all2 _ (tokenNumber ∘ doubNorm) sciNumber scis toks hrel' ?_
+    intro x hx tok ⟨extra, htok, hex⟩
+    have hp : PlainExtra extra := by
+      rcases hex with rfl | rfl | rfl
+      · exact Or.inl rfl
+      · exact Or.inr (Or.inl rfl)
+      · exact ht
+    simp only [Function.comp, tokenNumber, sciNumber]
+    rw [htok, (doubField_good x (h x hx)).2.1]
+    exact doub_token_value x (h x hx) extra hp
+
+/-- what follows an array inside a well-formed file: the blank that starts the next header
+line, or the NUL that pads the reader's buffer at the end of the file. -/
+theorem plain_tail_header (r : List Char) : PlainExtra ('\n' :: tokOf (' ' :: r)) := by
+  right; left; simp [tokOf, List.takeWhile_cons]
+
+theorem plain_tail_eof : PlainExtra ('\n' :: tokOf [Char.ofNat 0]) := by
+  right; right; decide
+
 end OpmVerif.FmtReal
